@@ -270,6 +270,13 @@ def clean_fn(t):
 
 def body_open(fn_text):
     """index of the '{' opening the fn body"""
+    m = re.search(r'(?m)^\s*(requires|ensures)\b', fn_text)
+    if m:
+        # a contract has been spliced: splice_contract puts the body brace at the start of a line after the clauses
+        bm = re.search(r'(?m)^[ \t]*\{', fn_text[m.end():])
+        if not bm:
+            raise Undecided('no fn body')
+        return m.end() + bm.end() - 1
     i = fn_text.index('fn ')
     d = 0
     while i < len(fn_text):
